@@ -984,6 +984,25 @@ def tie(check, prog):
     s = sym(fd.args.args[0].arg)
     names = intern(('attr', s, '_parameter_names'))
     pars = intern(('attr', s, '_parameters'))
+    # "uniquely named parameters": a user-chosen name for the tied parameter is
+    # compared with the names in use before anything is changed (the Mapper
+    # de-duplicates at construction; add_tie has to refuse, or do the same)
+    nn = [a.arg for a in fd.args.args if a.arg == 'new_name']
+    if nn:
+        NN = sym('new_name')
+        guarded = any(
+            any(x[0] == 'cmp' and x[1] in ('in', 'not in') and x[2] == NN
+                for ct, pol in o.cond for x in subterms(ct))
+            for o in res.raises) or any(
+            c['name'].endswith('add_parameter') for c in it.calls)
+        check.require(guarded, 'G8-tie-names-unique', 'Model.add_tie(new_name)',
+                      'a new name that another parameter already carries is refused (or '
+                      'de-duplicated)', loc,
+                      fail_detail='new_name is stored without looking at the names in '
+                      "use: add_tie(['0:n', '1:n'], new_name='0:r') leaves two parameters "
+                      "called '0:r'; model.parameters then has one entry less than "
+                      '_parameters, and values given by name and by position build '
+                      'different scatterers')
 
     def is_sorted(t):
         return t[0] == 'mut' and t[2] == 'sort' and not t[3]
@@ -1030,7 +1049,9 @@ def tie(check, prog):
     okn = len(nm) == 1 and nm[0]['key'][0] == 'idx' and nm[0]['key'][2] == num(0) and \
         is_sorted(nm[0]['key'][1]) and nm[0]['value'] == sym('new_name')
     if okn:
-        conds = [(t, pl) for t, pl in nm[0]['cond'] if t[0] != 'loop-iter']
+        conds = [(t, pl) for t, pl in nm[0]['cond'] if t[0] != 'loop-iter' and not any(
+            x[0] == 'cmp' and x[1] in ('in', 'not in') and x[2] == sym('new_name')
+            for x in subterms(t))]
         okn = conds == [(('cmp', 'is not', sym('new_name'), NONE), True)] or \
             conds == [(('cmp', 'is', sym('new_name'), NONE), False)]
     # the sorted list is the list of positions of the named parameters
@@ -1048,15 +1069,22 @@ def tie(check, prog):
                   'the tied indices are the positions of the given names in '
                   '_parameter_names, one per name', loc,
                   fail_detail='indices are %s' % (show(srt)[:200] if srt else None))
-    unknown = [o for o in res.raises if any(
+    # the refusal of a new name that is already in use (checked above) is a third,
+    # separate reason to raise; its negation then sits on every later path
+    def about_new_name(t):
+        return any(x[0] == 'cmp' and x[1] in ('in', 'not in') and x[2] == sym('new_name')
+                   for x in subterms(t))
+    collision = [o for o in res.raises if o.cond and about_new_name(o.cond[-1][0])
+                 and o.cond[-1][1]]
+    unknown = [o for o in res.raises if o not in collision and any(
         lt == ('cmp', 'not in', ('elem', tied, lt[2][2] if lt[2][0] == 'elem' else None),
                names) and pl
         for lt, pl in o.cond if lt[0] == 'cmp')]
-    uneq = [o for o in res.raises if o not in unknown]
+    uneq = [o for o in res.raises if o not in unknown and o not in collision]
     oku = len(uneq) == 1
     if oku:
         cs = [(t, pl) for t, pl in uneq[0].cond if t[0] != 'loop-iter' and
-              not (t[0] == 'cmp' and t[1] == 'not in')]
+              not (t[0] == 'cmp' and t[1] == 'not in') and not about_new_name(t)]
         oku = len(cs) == 1 and cs[0][0][0] == 'cmp' and (
             (cs[0][0][1] == '==' and cs[0][1] is False) or
             (cs[0][0][1] == '!=' and cs[0][1] is True)) and \
